@@ -13,7 +13,8 @@ theorem ApiGood.toGood {s : Vm} {r : Res} (h : ApiGood s r) : Good s r := by
   | normal => simpa using h2
   | thrown => simpa using h2.toExt true
   | fatal => simpa using h2.toExt false
-  | stuck => exact absurd hr h1
+  | stuck => exact absurd hr h1.1
+  | exit e => exact absurd hr (h1.2 e)
 
 theorem popCtx_snoc (s : Vm) (l : List Ctx) (c : Ctx) (h : s.callStack = l ++ [c]) :
     popCtx s = { restoreCtx c s with callStack := l } := by
@@ -153,6 +154,57 @@ theorem frame_good {runF : RunF} (HG : HypG runF) (lf : Nat) (k : FrameKind) (re
       simp only [GoodCtl] at hc
       exact ⟨by simpa [GoodCtl] using hext.weaken.trans hc, by simp [Quiet]⟩
     | stuck => simp [GoodCtl] at hc
+    | exit e =>
+      simp only [GoodCtl] at hc
+      obtain ⟨hsame, hpq⟩ := post_spec k ret s s1 s2 hp hc
+      have hq2 : s2.interrupted = s.interrupted := (hqq (by simp)).trans hq
+      -- everything but a for-of: the frame's own clean-up, then the exit goes on (or ends at a function)
+      have other : ∀ o' : Outcome, (o' = .normal ∨ o' = .exit e) → Good s (o', k.post s2) := by
+        intro o' ho
+        rcases ho with rfl | rfl
+        · exact ⟨by simpa [GoodCtl] using hsame, fun _ => hpq.trans hq2⟩
+        · exact ⟨by simpa [GoodCtl] using hsame, fun _ => hpq.trans hq2⟩
+      cases k with
+      | tmp n => exact other _ (Or.inr rfl)
+      | call n f => exact other _ (Or.inl rfl)
+      | native n => exact other _ (Or.inl rfl)
+      | ref => exact other _ (Or.inr rfl)
+      | block => exact other _ (Or.inr rfl)
+      | priv => exact other _ (Or.inr rfl)
+      | forOf c =>
+        simp only [frameExit]
+        have hI3 : Inv (FrameKind.post (.forOf c) s2) := hsame.inv hI
+        cases c with
+        | false =>
+          simp only [Bool.false_eq_true, if_false]
+          cases e with
+          | brk => exact ⟨by simpa [GoodCtl] using hsame, fun _ => hpq.trans hq2⟩
+          | ret => exact ⟨by simpa [GoodCtl] using hsame, fun _ => hpq.trans hq2⟩
+        | true =>
+          simp only [if_true]
+          have hg3 := HG ret _ hI3
+          generalize runF ret (FrameKind.post (.forOf true) s2) = r3 at hg3
+          obtain ⟨o3, s3⟩ := r3
+          obtain ⟨hc3, hq3⟩ := hg3
+          have hq4 : o3 ≠ .fatal → s3.interrupted = s.interrupted := fun h => ((hq3 h).trans hpq).trans hq2
+          cases o3 with
+          | normal =>
+            simp only [GoodCtl] at hc3
+            cases e with
+            | brk => exact ⟨by simpa [GoodCtl] using hsame.trans hc3, fun _ => hq4 (by simp)⟩
+            | ret => exact ⟨by simpa [GoodCtl] using hsame.trans hc3, fun _ => hq4 (by simp)⟩
+          | exit e3 =>
+            simp only [GoodCtl] at hc3
+            cases e with
+            | brk => exact ⟨by simpa [GoodCtl] using hsame.trans hc3, fun _ => hq4 (by simp)⟩
+            | ret => exact ⟨by simpa [GoodCtl] using hsame.trans hc3, fun _ => hq4 (by simp)⟩
+          | thrown =>
+            simp only [GoodCtl] at hc3
+            exact ⟨by simpa [GoodCtl] using hsame.ext_left hc3, fun _ => hq4 (by simp)⟩
+          | fatal =>
+            simp only [GoodCtl] at hc3
+            exact ⟨by simpa [GoodCtl] using hsame.ext_left hc3, by simp [Quiet]⟩
+          | stuck => simp [GoodCtl] at hc3
 
 /-- the native probe (a native call that may overflow, throw a catchable payload, or raise Interrupt) -/
 theorem probe_good (id : Nat) (s : Vm) : Good s (probe id s) := by
@@ -187,6 +239,16 @@ theorem mkSame {s t : Vm}
       t.refStack = s.refStack) : Same s t :=
   ⟨h.1, h.2.1, h.2.2.1, h.2.2.2.1, h.2.2.2.2.1, h.2.2.2.2.2.1, h.2.2.2.2.2.2.1, h.2.2.2.2.2.2.2⟩
 
+/-- the deferred recover of a boundary never answers with a local exit -/
+theorem unwind_no_exit (runF : RunF) (o : Outcome) (s : Vm) : ∀ e, (unwindAtMarker runF o s).1 ≠ .exit e := by
+  intro e
+  unfold unwindAtMarker
+  simp only
+  split
+  · split <;> simp
+  · simp
+  · simp
+
 /-- **vm.try is balanced** (vm.go `try`): for every behaviour of the callback and every ending. -/
 theorem tryB_spec {runF : RunF} (HG : HypG runF) (HA : HypA runF) (b : Beh) (s : Vm) (hI : Inv s) :
     ApiGood s (tryB runF b s) := by
@@ -203,16 +265,21 @@ theorem tryB_spec {runF : RunF} (HG : HypG runF) (HA : HypA runF) (b : Beh) (s :
     have := unwind_after_body HA o c hcc s (pushTryFrame tryPanicMarker (-1) s) s1 hI
       ((Same.refl _).toExt false) rfl hext _ rfl
     obtain ⟨a1, _, a3, a4, a5, a6, a7, a8, a9, a10, a11, a12⟩ := this
-    refine ⟨a1, mkSame ⟨a4, a5, a6, a7, a8, a9, a10, a11⟩, fun hnf => ?_⟩
+    have hne := unwind_no_exit runF o s1
+    refine ⟨⟨a1, hne⟩, mkSame ⟨a4, a5, a6, a7, a8, a9, a10, a11⟩, fun hnf => ?_⟩
     have ho : o = .thrown := by
       cases hu : (unwindAtMarker runF o s1).1 with
       | thrown => exact a3 hu
       | fatal => exact absurd hu hnf
       | normal => rename_i a2; exact absurd hu ‹_›
       | stuck => exact absurd hu a1
+      | exit e => exact absurd hu (hne e)
     exact (a12 hnf).trans ((hq (by simp [ho])).trans hpq)
   cases o with
   | normal =>
+    simp only [GoodCtl] at hc
+    exact ⟨by simp, same_pop_of_push hc, fun _ => by simpa [popTryFrame] using (hq (by simp)).trans hpq⟩
+  | exit e =>
     simp only [GoodCtl] at hc
     exact ⟨by simp, same_pop_of_push hc, fun _ => by simpa [popTryFrame] using (hq (by simp)).trans hpq⟩
   | stuck => simp [GoodCtl] at hc
